@@ -20,11 +20,11 @@ PROPS = {
             'ClientTlsConfig::with_enabled_roots starts from a fresh configuration (earlier settings are dropped): every effect of that is a stricter or failing connection, which the property allows; noted in DESIGN.md, not demanded otherwise',
         ]),
     'C20': dict(
-        units=['richerror', 'richbuild'], level='proof',
+        units=['richerror', 'richbuild', 'status'], level='proof',
         witness=[dict(append_to='tonic-types/src/richer_error/mod.rs', module='replay/richerror_witness.rs', crate='tonic-types', filter='verif_witness_richerror')],
         not_covered=[
             'prost: the protobuf encoding of google.rpc.Status / Any / the ten google.rpc detail messages and its decoder are an assumed inverse pair (A-prost-10: decode(encode(m)) == m, nothing else about the wire format); the #[derive(::prost::Message)] on the generated structs is the assumed Message impl (A-prost-13); prost_types::Duration <-> std::time::Duration conversions are assumed for normalised non-negative durations (A-prost-12)',
-            'the header transport of Status::details (grpc-status-details-bin, base64) is the contract of unit status (C04 / C12), linked by lemma_c20_through_headers; tonic::Status::{with_details_and_metadata, details} are callee contracts here (A-tonic-status-02)',
+            'the header transport of Status::details (grpc-status-details-bin, base64) is the contract of unit status (C04 / C12), linked by lemma_c20_through_headers; tonic::Status::{with_details_and_metadata, details} are callee contracts in unit richerror (A-tonic-status-02) and proved on the real bodies in unit status, whose clauses for them count for C20 too',
             'retry delays outside the protobuf range (more than 315,576,000,000 s) and google.protobuf.Duration values that are negative or not normalised are outside the statement: the clauses about RetryInfo are conditional on the range',
             'with_error_details_vec* take `impl IntoIterator<Item = ErrorDetail>`; they are verified for Vec<ErrorDetail> (R12 specialisation)',
             'the ErrorDetails builder API (all 43 functions of error_details/mod.rs: new, with_* / set_* / add_* / has_* and the getters) and the std_messages constructors (new / with_violation / with_link / add_violation / add_link, row constructors) ARE under contract in unit richbuild: each fills its own field, or appends its own row in order, with exactly the arguments it was handed and leaves the other details alone; `impl Into<T>` parameters are specialised to `T` there (for which `.into()` is the identity, A-core-26), so what a conversion from another type does is not covered; RetryInfo::new is under contract in unit richerror (result within the protobuf range, an in-range delay is kept) and an opaque function of its argument in richbuild',
